@@ -377,12 +377,17 @@ Proof.
   - unfold db_keys. cbn. intro Hn. now apply adel_removes.
 Qed.
 
+Lemma reverify_acc g m r' : reverify g m = Acc r' -> r' = m.
+Proof.
+  unfold reverify. destruct (missing_required (oidc g) (r_params m)); [discriminate|].
+  destruct (oidc g); [apply oidc_checks_acc|]. intro H. now inversion H.
+Qed.
 Lemma dru_req_ok g d st r cid st' r' via :
   do_request_uri g d st r cid = (st', Acc r', via) -> store_ok g st -> req_ok g r -> req_ok g r'.
 Proof.
   intros H Hs Hr. dru_cases H; auto.
   - match goal with H : assoc _ (par_db st) = Some ?e |- _ => apply assoc_In' in H; eapply Hs; eauto end.
-  - eapply merged_ok; eauto.
+  - match goal with H : reverify _ _ = Acc _ |- _ => apply reverify_acc in H; subst end. eapply merged_ok; eauto.
 Qed.
 
 (* ================================================================ the hook loop *)
@@ -588,8 +593,11 @@ Lemma par_process_spec g st r w urn st' p :
              st' = {| par_db := aset urn {| e_req := s; e_exp := now st + ttl g |} (par_db st); now := now st |} /\
              (p = PUrn (ttl g) \/ p = PStoredExc x_key)).
 Proof.
-  unfold par_process. destruct (merge_obj true g (r_params r) w) as [s| | | |] eqn:E; intro H.
-  - right. exists s. destruct (has_key k_redirect_uri (r_params s)); inversion H; subst; auto.
+  unfold par_process. destruct (oidc g && missing_required true (r_params r)); [intro H; left; inversion H; subst; eauto|].
+  destruct (merge_obj true g (r_params r) w) as [s| | | |] eqn:E; intro H.
+  - destruct (par_class_checks g s) as [t|].
+    + left. destruct t; inversion H; subst; eauto.
+    + right. exists s. destruct (has_key k_redirect_uri (r_params s)); inversion H; subst; auto.
   - left. inversion H; subst. auto.
   - left. inversion H; subst. eauto.
   - left. inversion H; subst. eauto.
